@@ -203,3 +203,113 @@ def jn_conformance(rep, scenarios):
                 f'{r["name"]}: real {r["real"]} model outputs '
                 f'{r["model_outputs"]}' for r in bad[:3]))
     return results
+
+
+# --------------------------------------------------------------------------
+# GRAPH engine: every step the real program takes is an edge of the graph
+
+
+def graph_one(item):
+    """Run the real bin/ddsmt (-j 1) on a seed with a real command, take the
+    chain of inputs it accepted, and check that every step is a transition of
+    the rewrite graph as ddv/graph.py computes it from the predecessor."""
+    name, text, strategy, model = item
+    common.import_ddsmt()
+    from . import graph, sexp
+    graph.Meter.install()
+    scn = {'name': name, 'input': text, 'model': model,
+           'argv': ['--strategy', strategy, '-j', '1']}
+    with common.scratch_dir('ddv-confg-') as d:
+        rc, runs, data, err = real_run(scn, d, 'g')
+    golden = None
+    chain = []
+    for r in runs:
+        res = tuple(r['result'])
+        if golden is None:
+            golden = res
+            continue
+        if res == golden:
+            chain.append([t for t in r['tokens']])
+    out = {'name': name, 'strategy': strategy, 'steps': 0, 'edges_ok': 0,
+           'missing': [], 'rc': rc}
+    # with -j 1 every accepted candidate becomes the next input; stale
+    # in-flight candidates that happen to be accepted are discarded by ddSMT,
+    # so only follow steps that the graph confirms or that change the file
+    from ddsmt import mutators
+
+    def successors(state_text):
+        cur = graph.parse(state_text)
+        with common.quiet():
+            common.set_args(['ddsmt', '--strategy', strategy, 'in', 'out',
+                             'cmd'])
+            mutators.auto_detect_theories(graph.parse(text))
+        muts = graph.enabled_mutators()
+        succ = set()
+        props = list(graph.hier_proposals(cur, muts))
+        if strategy != 'hierarchical':
+            props += list(graph.ddmin_proposals(cur))
+        for p in props:
+            if p.result is not None:
+                succ.add(tuple(FRESH.sub('x#__fresh', t) for t in
+                               sexp.forest_tokens(sexp.norm(
+                                   sexp.node_to_list(p.result)))))
+        return succ
+
+    history = [text]
+    cache = {}
+    out['stale'] = 0
+    for cand in chain:
+        want = tuple(sexp.strip_comment(FRESH.sub('x#__fresh', t))
+                     for t in cand)
+        out['steps'] += 1
+        if history[-1] not in cache:
+            cache[history[-1]] = successors(history[-1])
+        if want in cache[history[-1]]:
+            out['edges_ok'] += 1
+            history.append('\n'.join(cand) + '\n')
+            continue
+        # a queued task of an earlier input that the single worker ran before
+        # the main loop had set the abort flag: accepted by the command,
+        # discarded by ddSMT
+        stale = False
+        for h in history[:-1]:
+            if h not in cache:
+                cache[h] = successors(h)
+            if want in cache[h]:
+                stale = True
+                break
+        if stale:
+            out['stale'] += 1
+            out['steps'] -= 1
+            continue
+        out['missing'].append(' '.join(cand)[:200])
+        break
+    return out
+
+
+def graph_conformance(rep, seeds_, strategies=('hierarchical', )):
+    items = []
+    for name, text in seeds_:
+        toks = [t for t in __import__('ddv.sexp', fromlist=['x']).token_texts(
+            text) if t not in '()' and not t.startswith(';')]
+        # a command that needs two tokens of the input: reductions happen,
+        # but not down to nothing
+        need = [t for t in toks if t not in ('assert', 'declare-const',
+                                             'check-sat')][-2:]
+        for st in strategies:
+            items.append((name, text, st, ['has', need]))
+    results = common.pmap(graph_one, items)
+    ok = [r for r in results if not r['missing']]
+    rep.count('traces_validated_against_impl', len(ok))
+    rep.count('real_steps_checked_against_graph',
+              sum(r['steps'] for r in results))
+    rep.count('real_steps_that_are_graph_edges',
+              sum(r['edges_ok'] for r in results))
+    bad = [r for r in results if r['missing'] and
+           r['strategy'] == 'hierarchical']
+    if bad:
+        raise common.HarnessError(
+            'conformance mismatch: the real program accepted a step that is '
+            'not a transition of the rewrite graph: ' + '; '.join(
+                f'{r["name"]}: {r["missing"][0]}' for r in bad[:3]))
+    return results
